@@ -35,6 +35,7 @@ import (
 	"time"
 
 	webp "github.com/deepteams/webp"
+	"github.com/deepteams/webp/animation"
 	"github.com/deepteams/webp/verifapi"
 )
 
@@ -760,34 +761,175 @@ type encResult struct {
 	data  []byte
 	cls   string // "ok" | "err <class>" | "panic"
 	panic string
+	mod   string // "" or "<before> -> <after>": Encode wrote into the caller's option struct
+}
+
+// optSnapshot: every field of the caller's option struct, metadata by length, slice identity and
+// (up to 4 KiB) content — Encode must treat *opts as read-only.
+func optSnapshot(o *webp.EncoderOptions) string {
+	if o == nil {
+		return "nil"
+	}
+	md := func(b []byte) string {
+		if b == nil {
+			return "n"
+		}
+		if len(b) == 0 {
+			return "0"
+		}
+		if len(b) > 4096 {
+			return fmt.Sprintf("%d@%p", len(b), &b[0])
+		}
+		return fmt.Sprintf("%d@%p:%x", len(b), &b[0], fnv1a(b))
+	}
+	return encOpts(o) + "|" + md(o.ICC) + "|" + md(o.EXIF) + "|" + md(o.XMP)
 }
 
 func realEncode(img image.Image, o *webp.EncoderOptions) encResult {
 	var buf bytes.Buffer
 	var res encResult
+	before := optSnapshot(o)
 	s, pm := guard(func() string { return optErrClass(webp.Encode(&buf, img, o)) })
 	res.cls, res.panic = s, pm
+	if after := optSnapshot(o); after != before {
+		res.mod = before + " -> " + after
+	}
 	if s == "ok" {
 		res.data = buf.Bytes()
 	}
 	return res
 }
 
-func decodesTo(data []byte, w, h int) string {
+// decodeCheck decodes an encoder output with the Go decoder; bad = "" when it decodes to w x h.
+func decodeCheck(data []byte, w, h int) (im image.Image, bad string) {
 	s, pm := guard(func() string {
-		im, err := webp.Decode(bytes.NewReader(data))
+		d, err := webp.Decode(bytes.NewReader(data))
 		if err != nil {
 			return "decode-error"
 		}
-		if im.Bounds().Dx() != w || im.Bounds().Dy() != h {
+		if d.Bounds().Dx() != w || d.Bounds().Dy() != h {
 			return "decode-dims"
 		}
+		im = d
 		return ""
 	})
 	if s == "panic" {
-		return "decode-panic:" + panicClass(pm)
+		return nil, "decode-panic:" + panicClass(pm)
 	}
-	return s
+	return im, s
+}
+
+func decodesTo(data []byte, w, h int) string {
+	_, bad := decodeCheck(data, w, h)
+	return bad
+}
+
+// ---------- PSNR floor: a successful lossy Encode must produce a picture that resembles its source ----------
+
+// optLumaPSNR: PSNR (dB, peak 255) of the BT.601 studio-range luma of the decoded picture against
+// the source over the pixels the viewer can see (source alpha != 0; the encoder may repaint fully
+// transparent pixels).  An opaque lossy file decodes to *image.YCbCr: its Y plane is used as it is
+// (Go's YCbCr colour model is the full-range JFIF one, not the conversion of the format).
+// n = number of such pixels; exact = no luma error at all (PSNR infinite).
+func optLumaPSNR(src, dec image.Image) (psnr float64, exact bool, n int) {
+	a := toNRGBA(src)
+	w, h := a.Bounds().Dx(), a.Bounds().Dy()
+	luma := func(p []byte) int { return (66*int(p[0])+129*int(p[1])+25*int(p[2])+128)>>8 + 16 }
+	yc, isYC := dec.(*image.YCbCr)
+	var b *image.NRGBA
+	if !isYC {
+		b = toNRGBA(dec)
+	}
+	var sse uint64
+	for y := 0; y < h; y++ {
+		pa := a.Pix[a.PixOffset(a.Rect.Min.X, a.Rect.Min.Y+y):]
+		for x := 0; x < w; x++ {
+			qa := pa[4*x : 4*x+4]
+			if qa[3] == 0 {
+				continue
+			}
+			var lb int
+			if isYC {
+				lb = int(yc.Y[yc.YOffset(yc.Rect.Min.X+x, yc.Rect.Min.Y+y)])
+			} else {
+				o := b.PixOffset(b.Rect.Min.X+x, b.Rect.Min.Y+y)
+				lb = luma(b.Pix[o : o+4])
+			}
+			d := luma(qa) - lb
+			sse += uint64(d * d)
+			n++
+		}
+	}
+	if n == 0 || sse == 0 {
+		return math.Inf(1), true, n
+	}
+	return 10 * math.Log10(255*255*float64(n)/float64(sse)), false, n
+}
+
+// optSamePicture: two decoded pictures are the same picture (YCbCr: the three planes; otherwise
+// the NRGBA pixels).
+func optSamePicture(a, b image.Image) (bool, string) {
+	ya, ok1 := a.(*image.YCbCr)
+	yb, ok2 := b.(*image.YCbCr)
+	if ok1 != ok2 {
+		return false, fmt.Sprintf("decoded types differ: %T vs %T", a, b)
+	}
+	if !ok1 {
+		return nrgbaEqual(toNRGBA(a), toNRGBA(b), false)
+	}
+	if ya.Rect.Dx() != yb.Rect.Dx() || ya.Rect.Dy() != yb.Rect.Dy() || ya.SubsampleRatio != yb.SubsampleRatio {
+		return false, fmt.Sprintf("size %v/%v vs %v/%v", ya.Rect, ya.SubsampleRatio, yb.Rect, yb.SubsampleRatio)
+	}
+	w, h := ya.Rect.Dx(), ya.Rect.Dy()
+	bad, first := 0, ""
+	for y := 0; y < h; y++ {
+		for x := 0; x < w; x++ {
+			pa, pb := ya.YCbCrAt(ya.Rect.Min.X+x, ya.Rect.Min.Y+y), yb.YCbCrAt(yb.Rect.Min.X+x, yb.Rect.Min.Y+y)
+			if pa != pb {
+				if bad == 0 {
+					first = fmt.Sprintf("first at (%d,%d): %v vs %v", x, y, pa, pb)
+				}
+				bad++
+			}
+		}
+	}
+	if bad > 0 {
+		return false, fmt.Sprintf("%d of %d pixels differ, %s", bad, w*h, first)
+	}
+	return true, ""
+}
+
+// optQualityBand names the quality regime of a lossy encode: rate-controlled encodes (TargetSize,
+// TargetPSNR) and a capped quantiser range (QMax < 100 lowers, QMin > 0 raises the quality the
+// encoder may use) are bands of their own; otherwise the band of Quality.
+func optQualityBand(o *webp.EncoderOptions) string {
+	if o == nil {
+		return "q60-84"
+	}
+	switch {
+	case o.TargetSize > 0:
+		return "target-size"
+	case o.TargetPSNR > 0:
+		return "target-psnr"
+	}
+	q := float64(o.Quality)
+	if qm := o.QMax; qm >= 0 && float64(qm) < q { // resolveQMax: negative = 100; lossy.newPassStats treats 0 as 100
+		if qm > 0 {
+			q = float64(qm)
+		}
+	}
+	if float64(o.QMin) > q {
+		q = float64(o.QMin)
+	}
+	switch {
+	case q < 25:
+		return "q0-24"
+	case q < 60:
+		return "q25-59"
+	case q < 85:
+		return "q60-84"
+	}
+	return "q85-100"
 }
 
 type optImg struct {
@@ -796,13 +938,30 @@ type optImg struct {
 	w, h int
 	a    bool // has alpha
 	spec map[string]any
+	cls  string // content class for the PSNR floor: generator class name, or "cheap-<kind>"
 }
 
 // mkOptImg builds (and, for a replay, rebuilds) a generator image from its literal parameters.
 func mkOptImg(seed, k uint64, w, h, cls, acls int) optImg {
 	im := GenImage(NewRNG(seed, k), w, h, cls, acls)
 	return optImg{imgDesc(w, h, cls, acls) + fmt.Sprintf("#%d", k), im, w, h, acls != AlphaNone,
-		map[string]any{"seed": seed, "k": k, "w": w, "h": h, "cls": cls, "acls": acls}}
+		map[string]any{"seed": seed, "k": k, "w": w, "h": h, "cls": cls, "acls": acls}, imgClassNames[cls]}
+}
+
+// mkOptCheapImg: a threshold-crossing picture with cheap content (thresholds.go GenCheapImage).
+func mkOptCheapImg(seed, k uint64, w, h, kind, acls int) optImg {
+	im := GenCheapImage(NewRNG(seed, k), w, h, kind, acls)
+	return optImg{cheapDesc(w, h, kind, acls) + fmt.Sprintf("#%d", k), im, w, h, acls != AlphaNone,
+		map[string]any{"seed": seed, "k": k, "w": w, "h": h, "cheap": kind + 1, "acls": acls}, "cheap-" + cheapNames[kind]}
+}
+
+// optImgFromSpec rebuilds the picture of a finding.
+func optImgFromSpec(sp map[string]any) optImg {
+	num := func(k string) int { v, _ := sp[k].(float64); return int(v) }
+	if c := num("cheap"); c > 0 {
+		return mkOptCheapImg(uint64(num("seed")), uint64(num("k")), num("w"), num("h"), c-1, num("acls"))
+	}
+	return mkOptImg(uint64(num("seed")), uint64(num("k")), num("w"), num("h"), num("cls"), num("acls"))
 }
 
 func optImages(seed uint64, rich bool) []optImg {
@@ -830,6 +989,17 @@ type optEncoder struct {
 	what   []string
 	pairs  [][3]string // (key a, key b, why) of every pair asserted byte-identical
 	probes []optProbe  // pairs on which the model decides: model-equal must imply byte-identical
+	// phase: "" for the body of the suite; the equivalence blocks that are repeated later (at the
+	// end, after the animation prelude) run under their own phase name = their own cache, so that
+	// the encodes are really executed again in the process state of that moment.
+	phase string
+	// prelude: the animation encodes that ran (in this order) before the current phase; copied into
+	// the Input of pair findings so that a replay in a fresh process runs them first
+	prelude []any
+	// PSNR bookkeeping: observed minimum per "<band>|<content class>" (finite values only)
+	psnrMin map[string]float64
+	decoded map[string]image.Image // decoded pictures kept for the layout-only comparison (big pictures only)
+	keep    bool
 }
 
 type optProbe struct {
@@ -853,7 +1023,8 @@ func (e *optEncoder) probe(im optImg, a, b *webp.EncoderOptions, label string) {
 
 func (e *optEncoder) encode(im optImg, o *webp.EncoderOptions) (encResult, bool) {
 	key := im.name + "|" + encOpts(o)
-	if r, ok := e.cache[key]; ok {
+	ckey := e.phase + "@" + key
+	if r, ok := e.cache[ckey]; ok {
 		return r, true
 	}
 	if e.used >= e.budget {
@@ -861,7 +1032,7 @@ func (e *optEncoder) encode(im optImg, o *webp.EncoderOptions) (encResult, bool)
 	}
 	e.used++
 	r := realEncode(im.img, o)
-	e.cache[key] = r
+	e.cache[ckey] = r
 	fl := "-"
 	if im.a {
 		fl = "A"
@@ -870,23 +1041,112 @@ func (e *optEncoder) encode(im optImg, o *webp.EncoderOptions) (encResult, bool)
 	e.goOut = append(e.goOut, r.cls)
 	e.what = append(e.what, key)
 	e.rep.Count("encode:" + strings.SplitN(r.cls, " ", 2)[0])
-	if o != nil && o.Lossless {
+	lossless := o != nil && o.Lossless
+	if lossless {
 		e.rep.Count("encode:lossless")
 	} else {
 		e.rep.Count("encode:lossy")
 	}
+	in := map[string]any{"op": "optpair", "a": encOpts(o), "b": encOpts(o), "img": im.spec}
+	e.checkMod(r, in)
 	if r.cls == "panic" {
 		e.rep.Add(Finding{Kind: "property", Property: "C20", Signature: "panic:Encode:" + panicClass(r.panic),
-			Detail: "webp.Encode panicked: " + r.panic, Input: map[string]any{"op": "optpair", "a": encOpts(o), "b": encOpts(o), "img": im.spec}})
+			Detail: "webp.Encode panicked: " + r.panic, Input: in})
 	}
 	if r.cls == "ok" {
-		if bad := decodesTo(r.data, im.w, im.h); bad != "" {
+		dec, bad := decodeCheck(r.data, im.w, im.h)
+		if bad != "" {
 			e.rep.Add(Finding{Kind: "property", Property: "C20", Signature: "invalid-output:" + bad,
-				Detail: "Encode succeeded but the Go decoder does not accept the file (" + bad + ")",
-				Input:  map[string]any{"op": "optpair", "a": encOpts(o), "b": encOpts(o), "img": im.spec}})
+				Detail: "Encode succeeded but the Go decoder does not accept the file (" + bad + ")", Input: in})
+		} else {
+			if e.keep {
+				e.decoded[ckey] = dec
+			}
+			if sig, detail := e.pictureCheck(im, o, dec); sig != "" {
+				e.rep.Add(Finding{Kind: "property", Property: "C20", Signature: sig, Detail: detail, Input: in})
+			}
 		}
 	}
 	return r, true
+}
+
+// checkMod reports an Encode call that wrote into the option struct of its caller.
+func (e *optEncoder) checkMod(r encResult, in map[string]any) {
+	if r.mod != "" {
+		e.rep.Add(Finding{Kind: "property", Property: "C20", Signature: "opts:caller-options-modified",
+			Detail: "webp.Encode modified the EncoderOptions value of its caller: " + short(r.mod, 400), Input: in})
+	}
+}
+
+// pictureCheck: the decoded picture of a successful encode against its source.  Lossless: exact
+// (RGB of fully transparent pixels is free unless Exact).  Lossy: luma PSNR over the visible pixels
+// not below the floor of the quality band and content class (optPSNRFloor).
+func (e *optEncoder) pictureCheck(im optImg, o *webp.EncoderOptions, dec image.Image) (sig, detail string) {
+	if o != nil && o.Lossless {
+		if ok, why := nrgbaEqual(toNRGBA(im.img), toNRGBA(dec), !o.Exact); !ok {
+			return "invalid-output:lossless-not-exact", "Lossless Encode succeeded but the decoded picture differs from the source: " + why
+		}
+		e.rep.Count("picture:lossless-exact")
+		return "", ""
+	}
+	psnr, exact, n := optLumaPSNR(im.img, dec)
+	band := optQualityBand(o)
+	if exact || n == 0 {
+		e.rep.Count("psnr:" + band + ":infinite")
+		return "", ""
+	}
+	if n < optPSNRMinPixels {
+		e.rep.Count("psnr:" + band + ":tiny-unchecked")
+		return "", ""
+	}
+	k := band + "|" + im.cls
+	if m, ok := e.psnrMin[k]; !ok || psnr < m {
+		e.psnrMin[k] = psnr
+	}
+	floor := optPSNRFloor(band, im.cls)
+	e.rep.Count("psnr:" + band + ":checked")
+	if psnr < floor {
+		return "invalid-output:psnr", fmt.Sprintf("lossy Encode succeeded and the file decodes, but the picture does not resemble the source: luma PSNR over %d visible pixels = %.2f dB, floor for %s / %s content = %.1f dB (%s)", n, psnr, band, im.cls, floor, im.name)
+	}
+	return "", ""
+}
+
+// optPSNRFloor: lowest acceptable luma PSNR (dB, peak 255) of a successful lossy encode, by quality
+// band (optQualityBand) and content group: "hard" = noise and random-palette pictures, "smooth" =
+// photo / gradient / flat / cheap threshold content.  Pictures with fewer than optPSNRMinPixels
+// visible pixels are not judged (2x1, 1x17 … : a PSNR over a handful of pixels says nothing).
+//
+// Measured on the unchanged tree (quick seeds 1, 2, 3 and thorough seed 1; minimum over the whole
+// option grid of the suite, dB):          smooth   hard        floor smooth / hard
+//
+//	q85-100                               26.45    26.08        20 / 18
+//	q60-84                                33.66    25.47        26 / 18
+//	q25-59                                24.78    17.12        18 / 11
+//	q0-24, target-size, target-psnr       22.25    15.96        15 / 10
+//
+// (the 19x17 photo with gradient alpha caps at 26..30 dB whatever the quality: its decoded RGB goes
+// through chroma upsampling and clipping before the luma is recomputed; the large q90 pictures of the
+// layout-only block reach 42 dB (noise) and 39..44 dB (photo)).  A picture decoded from a token
+// stream that does not belong to its mode partition lands at 5..12 dB.
+const optPSNRMinPixels = 64
+
+func optPSNRFloor(band, cls string) float64 {
+	hard := cls == "noise" || strings.HasPrefix(cls, "pal")
+	var smooth, hrd float64
+	switch band {
+	case "q85-100":
+		smooth, hrd = 20, 18
+	case "q60-84":
+		smooth, hrd = 26, 18
+	case "q25-59":
+		smooth, hrd = 18, 11
+	default: // q0-24, target-size, target-psnr
+		smooth, hrd = 15, 10
+	}
+	if hard {
+		return hrd
+	}
+	return smooth
 }
 
 // same asserts byte-identical outputs (or identical error classes) for two option values.
@@ -905,8 +1165,11 @@ func (e *optEncoder) same(im optImg, a, b *webp.EncoderOptions, sig, why string)
 		// sets meet, the difference is not caused by the options (that is C11/C10, not C20).
 		seenA, seenB := map[string]bool{digest(ra.data): true}, map[string]bool{digest(rb.data): true}
 		for k := 0; k < 4; k++ {
-			seenA[digest(realEncode(im.img, a).data)] = true
-			seenB[digest(realEncode(im.img, b).data)] = true
+			xa, xb := realEncode(im.img, a), realEncode(im.img, b)
+			e.checkMod(xa, map[string]any{"op": "optpair", "a": encOpts(a), "b": encOpts(a), "img": im.spec})
+			e.checkMod(xb, map[string]any{"op": "optpair", "a": encOpts(b), "b": encOpts(b), "img": im.spec})
+			seenA[digest(xa.data)] = true
+			seenB[digest(xb.data)] = true
 		}
 		meet := false
 		for k := range seenA {
@@ -924,9 +1187,13 @@ func (e *optEncoder) same(im optImg, a, b *webp.EncoderOptions, sig, why string)
 			why = "same image and options encode to different bytes depending on earlier Encode calls (seen while checking: " + why + ")"
 			e.rep.Count("history-dependent-encode")
 		}
+		in := map[string]any{"op": "optpair", "a": encOpts(a), "b": encOpts(b), "img": im.spec}
+		if len(e.prelude) > 0 {
+			in["prelude"] = append([]any(nil), e.prelude...)
+		}
 		e.rep.Add(Finding{Kind: "property", Property: prop, Signature: sig,
 			Detail: fmt.Sprintf("%s: outputs differ on %s: %s %s vs %s %s (a: %d distinct outputs, b: %d)", why, im.name, ra.cls, digest(ra.data), rb.cls, digest(rb.data), len(seenA), len(seenB)),
-			Input:  map[string]any{"op": "optpair", "a": encOpts(a), "b": encOpts(b), "img": im.spec}})
+			Input:  in})
 	}
 }
 
@@ -994,7 +1261,7 @@ var lossyOnly = []struct {
 
 func suiteOpts(rep *Report) error {
 	rich := rep.Tier == "thorough"
-	rep.Rule = "records: EncoderOptions values = fixed (nil, zero value, DefaultOptions, every preset) + single-field boundaries on a valid base + all pairs of fields × all pairs of boundary values {min-1,min,min+1,default,max-1,max,max+1,-1,-2,0,MinInt,MaxInt} (floats: ±0, subnormals, 99.99999, 100, 100.00001, -0.0001, NaN×3, ±Inf, ±MaxFloat32; metadata nil/empty/1/5/100MB/100MB+1) on valid bases (sampled in quick, complete ×60 bases in thorough) + full product of the small fields + fully random boundary records; each record goes through validateConfig (hook) and, with a writer/image situation (nil writer, nil image, dims 1x1 … 16384, ≤0, alpha), through Encode's front end, and through the Lean model (dimension pairs include Min>Max on BOTH axes: -3x-4, -1x-1, -16x-16, -16383x-16383, MinInt32xMinInt32); empty rectangles of every sign pattern on NRGBA/RGBA/Gray/NRGBA64/Paletted/generic images through the real Encode under a recover guard (must return the dimension error, write nothing); encodes: real webp.Encode on images ≤ 24x24 (lossy/lossless, with/without alpha) for sentinel/default pairs, nil vs DefaultOptions, lossy-only options under Lossless, EmulateJpegSize, Preset, boundary values, boundary dimensions, records the model resolves identically; non-trivial = record accepted by validateConfig or rejected by a check after the first one, and every encode pair whose base encode succeeded; distinct = FNV of the encoded record + situation"
+	rep.Rule = "records: EncoderOptions values = fixed (nil, zero value, DefaultOptions, every preset) + single-field boundaries on a valid base + all pairs of fields × all pairs of boundary values {min-1,min,min+1,default,max-1,max,max+1,-1,-2,0,MinInt,MaxInt} (floats: ±0, subnormals, 99.99999, 100, 100.00001, -0.0001, NaN×3, ±Inf, ±MaxFloat32; metadata nil/empty/1/5/100MB/100MB+1) on valid bases (sampled in quick, complete ×60 bases in thorough) + full product of the small fields + fully random boundary records; each record goes through validateConfig (hook) and, with a writer/image situation (nil writer, nil image, dims 1x1 … 16384, ≤0, alpha), through Encode's front end, and through the Lean model (dimension pairs include Min>Max on BOTH axes: -3x-4, -1x-1, -16x-16, -16383x-16383, MinInt32xMinInt32); empty rectangles of every sign pattern on NRGBA/RGBA/Gray/NRGBA64/Paletted/generic images through the real Encode under a recover guard (must return the dimension error, write nothing); encodes: real webp.Encode on images ≤ 24x24 (lossy/lossless, with/without alpha) for sentinel/default pairs, nil vs DefaultOptions, lossy-only options under Lossless, EmulateJpegSize, Preset, boundary values, boundary dimensions, records the model resolves identically; every real Encode call: the caller's option struct is unchanged afterwards, a successful lossless output decodes to exactly the source (alpha-0 RGB free unless Exact), a successful lossy output has luma PSNR over the visible pixels >= floor (dB, smooth/hard content: q85-100 20/18, q60-84 26/18, q25-59 18/11, q0-24 and TargetSize/TargetPSNR 15/10; observed minima on the unchanged tree over quick seeds 1-3 + thorough seed 1: 26.45/26.08, 33.66/25.47, 24.78/17.12, 22.25/15.96; pictures with < 64 visible pixels not judged); layout-only options (Partitions 1..3, AlphaCompression 0, AlphaFiltering 0/2, metadata, EmulateJpegSize, Preset) on two large textured pictures (208x176 noise+alpha and 320x320 photo at Quality 90: 28..42 KB of token partitions = 320k..500k tokens counted with an instrumented build for seeds 1-3, i.e. 10..16 token pages of 32768) must decode to exactly the pixels of the Partitions=0 encode; 5 pictures per run (thorough 40) on threshold-crossing sizes (thresholds.go, cheap content) under nil == DefaultOptions() == OptionsForPreset(PresetDefault,75), decodable output and exact lossless; the nil/default/preset equivalence, DefaultOptions() vs model and the check that two DefaultOptions() results are distinct objects without shared state are re-run at the END of the suite and after each step of an animation prelude (animation.Encoder Lossless / Quality 10, two frames and one frame); non-trivial = record accepted by validateConfig or rejected by a check after the first one, and every encode pair whose base encode succeeded; distinct = FNV of the encoded record + situation"
 
 	var lines, goOut, what []string
 	emit := func(line, g, w string) { lines = append(lines, line); goOut = append(goOut, g); what = append(what, w) }
@@ -1163,7 +1430,7 @@ func suiteOpts(rep *Report) error {
 	if rich {
 		budget = 6000
 	}
-	E := &optEncoder{rep: rep, budget: budget, cache: map[string]encResult{}}
+	E := &optEncoder{rep: rep, budget: budget, cache: map[string]encResult{}, psnrMin: map[string]float64{}, decoded: map[string]image.Image{}}
 	lossyImgs, losslessImgs := []optImg{imgs[0], imgs[1]}, []optImg{imgs[2], imgs[0]}
 	if rich {
 		lossyImgs = append(lossyImgs, imgs[4], imgs[5], imgs[3])
@@ -1175,7 +1442,9 @@ func suiteOpts(rep *Report) error {
 	}
 	rb := func(k int) *RNG { return NewRNG(rep.Seed, uint64(9_000_000+k)) }
 
-	// nil vs DefaultOptions(), and the zero value must at least be accepted
+	// nil vs DefaultOptions(), and the zero value must at least be accepted (the block is repeated
+	// at the end of the suite and after every step of the animation prelude, see below)
+	E.defaultsFresh("start")
 	for _, im := range imgs {
 		E.same(im, nil, webp.DefaultOptions(), "nil-vs-default", "nil options vs DefaultOptions()")
 		E.same(im, webp.DefaultOptions(), webp.OptionsForPreset(webp.PresetDefault, 75), "preset-default-vs-default", "OptionsForPreset(PresetDefault,75) vs DefaultOptions()")
@@ -1488,6 +1757,148 @@ func suiteOpts(rep *Report) error {
 	}
 	rep.CountN("model-equal-groups", nGroups)
 
+	// The blocks below are fixed lists, not samples: they get their own budget.
+	E.budget = E.used + 400
+	tBlock := time.Now()
+	lap := func(name string) {
+		rep.Extra["block_s:"+name] = math.Round(time.Since(tBlock).Seconds()*1000) / 1000
+		tBlock = time.Now()
+	}
+
+	// --- layout-only options on large textured pictures ---
+	// Pictures with more than 32768 coefficient tokens (internal/lossy tokenPageSize: the token
+	// buffer gets a second page, macroblocks straddle the page boundary).  Options that only choose
+	// HOW the same coded picture is laid out in the file — Partitions 0..3 (number of token
+	// partitions), AlphaCompression / AlphaFiltering at AlphaQuality 100 (raw, filtered or VP8L-coded
+	// alpha plane: all exact), metadata chunks, EmulateJpegSize and the Preset field ("no effect" /
+	// not read after validation) — must give files that decode to exactly the pixels of the base
+	// encode (Partitions=0, defaults).
+	{
+		type layoutOpt struct {
+			name string
+			set  func(*webp.EncoderOptions)
+		}
+		parts := []layoutOpt{
+			{"Partitions", func(o *webp.EncoderOptions) { o.Partitions = 1 }},
+			{"Partitions", func(o *webp.EncoderOptions) { o.Partitions = 2 }},
+			{"Partitions", func(o *webp.EncoderOptions) { o.Partitions = 3 }},
+		}
+		others := []layoutOpt{
+			{"AlphaCompression", func(o *webp.EncoderOptions) { o.AlphaCompression = 0 }},
+			{"AlphaFiltering", func(o *webp.EncoderOptions) { o.AlphaFiltering = 0 }},
+			{"AlphaFiltering", func(o *webp.EncoderOptions) { o.AlphaFiltering = 2 }},
+			{"Metadata", func(o *webp.EncoderOptions) { o.ICC, o.EXIF, o.XMP = metaBuf(5), metaBuf(3), metaBuf(4) }},
+			{"EmulateJpegSize", func(o *webp.EncoderOptions) { o.EmulateJpegSize = true }},
+			{"Preset", func(o *webp.EncoderOptions) { o.Preset = webp.PresetPhoto }},
+		}
+		bigs := []struct {
+			im   optImg
+			base *webp.EncoderOptions
+			vars []layoutOpt
+		}{
+			{mkOptImg(rep.Seed, 931, 208, 176, ClsNoise, AlphaGradient), &webp.EncoderOptions{Quality: 90, Method: 4, SNSStrength: 50, FilterStrength: 60, FilterType: 1,
+				Segments: 4, Pass: 1, QMax: 100, AlphaCompression: 1, AlphaFiltering: 1, AlphaQuality: 100}, append(append([]layoutOpt{}, parts...), others...)},
+			{mkOptImg(rep.Seed, 932, 320, 320, ClsPhoto, AlphaNone), func() *webp.EncoderOptions {
+				o := webp.DefaultOptions()
+				o.Quality, o.Method = 90, []int{4, 2, 5, 3}[rep.Seed%4]
+				return o
+			}(), parts},
+		}
+		E.keep = true
+		for _, bg := range bigs {
+			rbase, ok := E.encode(bg.im, bg.base)
+			if !ok || rbase.cls != "ok" {
+				rep.Notes = append(rep.Notes, "layout-only block: base encode of "+bg.im.name+" failed: "+rbase.cls)
+				continue
+			}
+			dbase := E.decoded["@"+bg.im.name+"|"+encOpts(bg.base)]
+			tb := vp8TokenBytes(rbase.data)
+			rep.Extra["big:"+bg.im.name+":file-bytes"] = len(rbase.data)
+			rep.Extra["big:"+bg.im.name+":token-partition-bytes"] = tb
+			if tb*8 > 2*32768 {
+				// no hook exposes the token count of a real Encode; counted once with an instrumented
+				// build (seeds 1-3): 208x176 noise q90 = 351.5k..352.2k tokens for 29.7 KB of token
+				// partitions, 320x320 photo q90 = 320k..500k tokens for 28..42 KB (about 12 tokens per
+				// byte), so 8 KiB of token partitions is far beyond two pages of 32768 tokens.
+				rep.Count("threshold:32768tokens")
+				rep.Count("big-picture:token-partition>8KiB")
+			} else {
+				rep.Notes = append(rep.Notes, fmt.Sprintf("layout-only block: %s has only %d token-partition bytes; the second token page may not be reached", bg.im.name, tb))
+			}
+			for _, v := range bg.vars {
+				o := cloneOpts(bg.base)
+				v.set(o)
+				res, ok := E.encode(bg.im, o)
+				if !ok {
+					break
+				}
+				rep.Eval(true, []byte("layout|"+bg.im.name+"|"+encOpts(o)))
+				rep.Count("layout-only:" + v.name)
+				d := E.decoded["@"+bg.im.name+"|"+encOpts(o)]
+				if res.cls != "ok" || d == nil || dbase == nil {
+					if res.cls != "ok" {
+						rep.Add(Finding{Kind: "property", Property: "C20", Signature: "opts:layout-option-rejected:" + v.name,
+							Detail: fmt.Sprintf("%s: the base options encode, the same options with a legal %s value give %s", bg.im.name, v.name, res.cls),
+							Input:  map[string]any{"op": "optpair", "a": encOpts(bg.base), "b": encOpts(o), "img": bg.im.spec, "pixels": true}})
+					}
+					continue // an undecodable output has been reported by encode()
+				}
+				if same, why := optSamePicture(dbase, d); !same {
+					rep.Add(Finding{Kind: "property", Property: "C20", Signature: "opts:layout-option-changes-picture:" + v.name,
+						Detail: fmt.Sprintf("%s (%d token-partition bytes): the file written with %s decodes to a different picture than the base encode (%d vs %d bytes): %s; the option only selects the layout of the same coded picture",
+							bg.im.name, tb, optDiff(bg.base, o), len(res.data), len(rbase.data), why),
+						Input: map[string]any{"op": "optpair", "a": encOpts(bg.base), "b": encOpts(o), "img": bg.im.spec, "pixels": true}})
+				}
+			}
+		}
+		E.keep = false
+		E.decoded = map[string]image.Image{}
+	}
+	lap("layout-only")
+
+	// --- threshold-crossing sizes (thresholds.go), cheap content: nil / default / preset equivalence,
+	//     decodable output, PSNR floor, exact lossless ---
+	{
+		tcs := DrawThresholdCases(rep.Seed, 0x0920, 5, ThresholdFilter{Units: []string{"width", "height", "pixels", "mbs", "mbrows"}, MinValue: 200, MaxPixels: 130000})
+		if rich {
+			tcs = DrawThresholdCases(rep.Seed, 0x0920, 40, ThresholdFilter{Units: []string{"width", "height", "side", "pixels", "mbs", "mbrows"}, MinValue: 200, MaxPixels: 300000})
+		}
+		for i, tc := range tcs {
+			r := NewRNG(rep.Seed, uint64(9_500_000+i))
+			kind := r.Intn(NumCheapClasses)
+			acls := []int{AlphaNone, AlphaNone, AlphaGradient, AlphaBinary}[r.Intn(4)]
+			im := mkOptCheapImg(rep.Seed, uint64(9600+i), tc.W, tc.H, kind, acls)
+			E.same(im, nil, webp.DefaultOptions(), "nil-vs-default:threshold", "nil options vs DefaultOptions() on "+tc.String())
+			E.same(im, webp.DefaultOptions(), webp.OptionsForPreset(webp.PresetDefault, 75), "preset-default-vs-default:threshold", "OptionsForPreset(PresetDefault,75) vs DefaultOptions() on "+tc.String())
+			E.encode(im, &webp.EncoderOptions{Lossless: true, Quality: 20, Method: 1})
+			CountThreshold(rep, tc)
+			rep.Count("threshold-content:" + im.cls)
+		}
+	}
+	lap("thresholds")
+
+	// --- the equivalence block again: at the END of everything above, and after every step of a
+	//     scripted animation prelude (the animation package encodes its frames through hooks of the
+	//     root package: encodeFrameForAnimation for sub-frames, simpleEncodeForAnimation for a
+	//     one-frame animation).  nil options must keep meaning DefaultOptions() whatever ran before. ---
+	E.equivBlock("end", imgs)
+	for _, st := range []struct {
+		lossless bool
+		quality  int
+		frames   int
+	}{{true, 75, 2}, {true, 75, 1}, {false, 10, 2}, {false, 10, 1}} {
+		name := fmt.Sprintf("after-animation(lossless=%v,q=%d,frames=%d)", st.lossless, st.quality, st.frames)
+		E.prelude = append(E.prelude, map[string]any{"seed": rep.Seed, "lossless": st.lossless, "quality": st.quality, "frames": st.frames})
+		if res := optAnimPrelude(rep.Seed, st.lossless, st.quality, st.frames); res != "ok" {
+			rep.Notes = append(rep.Notes, "animation prelude "+name+" returned "+res)
+			rep.Count("prelude:" + res)
+		} else {
+			rep.Count("prelude:ok")
+		}
+		E.equivBlock(name, imgs)
+	}
+	lap("equivalence-again")
+
 	// --- the model's accept/reject decision for every real encode ---
 	lo, err = RunDriver(E.lines)
 	if err != nil {
@@ -1529,11 +1940,136 @@ func suiteOpts(rep *Report) error {
 	}
 	rep.CountN("encodes", E.used)
 	rep.Extra["encodes"] = E.used
+	{
+		var ks []string
+		for k := range E.psnrMin {
+			ks = append(ks, k)
+		}
+		sort.Strings(ks)
+		mins := map[string]any{}
+		for _, k := range ks {
+			mins[k] = math.Round(E.psnrMin[k]*100) / 100
+		}
+		rep.Extra["psnr_min_dB"] = mins
+	}
 	rep.Extra["records"] = nRecords
 	for _, c := range sampleCases {
 		rep.Sample(map[string]any{"kind": c.kind, "opts": encOpts(c.o), "w": c.w, "h": c.h, "flags": c.flags})
 	}
 	return nil
+}
+
+// equivBlock: "nil == DefaultOptions() == OptionsForPreset(PresetDefault, 75)", DefaultOptions()
+// against the model, and the freshness of DefaultOptions(), re-executed (own cache) at a named
+// moment of the process.
+func (e *optEncoder) equivBlock(phase string, imgs []optImg) {
+	e.phase = phase
+	defer func() { e.phase = "" }()
+	tag := strings.SplitN(phase, "(", 2)[0]
+	e.defaultsFresh(phase)
+	for _, im := range imgs {
+		e.same(im, nil, webp.DefaultOptions(), "nil-vs-default:"+tag, "nil options vs DefaultOptions(), "+phase)
+		e.same(im, webp.DefaultOptions(), webp.OptionsForPreset(webp.PresetDefault, 75), "preset-default-vs-default:"+tag, "OptionsForPreset(PresetDefault,75) vs DefaultOptions(), "+phase)
+	}
+	// the exact ties again (compared with the model together with the encode lines)
+	e.lines = append(e.lines, "optdefault", fmt.Sprintf("optpreset 0 %d", f32bits(75)))
+	e.goOut = append(e.goOut, "ok "+canonOpts(webp.DefaultOptions()), "ok "+canonOpts(webp.OptionsForPreset(webp.PresetDefault, 75)))
+	e.what = append(e.what, "DefaultOptions "+phase, "OptionsForPreset "+phase)
+	e.rep.Count("equivalence-block:" + tag)
+}
+
+// defaultsFresh: two DefaultOptions() results are distinct objects with equal contents, and writing
+// through one of them changes neither the other nor the next DefaultOptions() result.
+func (e *optEncoder) defaultsFresh(phase string) {
+	a, b := webp.DefaultOptions(), webp.DefaultOptions()
+	want := canonOpts(b)
+	bad := ""
+	switch {
+	case a == nil || b == nil:
+		bad = "DefaultOptions() returned nil"
+	case a == b:
+		bad = "two DefaultOptions() calls returned the same pointer"
+	case canonOpts(a) != want:
+		bad = "two DefaultOptions() calls returned different contents: " + canonOpts(a) + " vs " + want
+	}
+	if bad == "" {
+		a.Lossless, a.Quality, a.Method, a.Partitions, a.ICC = true, 3, 0, 3, metaBuf(2)
+		if canonOpts(b) != want {
+			bad = "writing through one DefaultOptions() result changed an earlier one"
+		} else if c := webp.DefaultOptions(); canonOpts(c) != want {
+			bad = "writing through a DefaultOptions() result changed what DefaultOptions() returns next: " + canonOpts(c)
+		}
+		p, q := webp.OptionsForPreset(webp.PresetDefault, 75), webp.OptionsForPreset(webp.PresetDefault, 75)
+		if bad == "" && (p == q || canonOpts(p) != canonOpts(q)) {
+			bad = "two OptionsForPreset(PresetDefault, 75) calls returned the same pointer or different contents"
+		}
+	}
+	e.rep.Eval(true, []byte("defaults-fresh|"+phase))
+	if bad != "" {
+		e.rep.Add(Finding{Kind: "property", Property: "C20", Signature: "opts:default-options-shared",
+			Detail: bad + " (" + phase + ")", Input: map[string]any{"op": "optline", "line": "optdefault"}})
+	}
+}
+
+// optAnimPrelude runs one animation encode (20x18, `frames` frames) through the public API.
+func optAnimPrelude(seed uint64, lossless bool, quality, frames int) string {
+	s, pm := guard(func() string {
+		var buf bytes.Buffer
+		e := animation.NewEncoder(&buf, 20, 18, &animation.EncodeOptions{Lossless: lossless, Quality: quality})
+		if e == nil {
+			return "err-new"
+		}
+		for i := 0; i < frames; i++ {
+			if err := e.AddFrame(GenImage(NewRNG(seed, uint64(9700+i)), 20, 18, ClsPhoto, AlphaNone), 40*time.Millisecond); err != nil {
+				return "err-add"
+			}
+		}
+		if err := e.Close(); err != nil {
+			return "err-close"
+		}
+		if buf.Len() == 0 {
+			return "err-empty"
+		}
+		return "ok"
+	})
+	if s == "panic" {
+		return "panic:" + panicClass(pm)
+	}
+	return s
+}
+
+// vp8TokenBytes: bytes of the token partitions of the (last) VP8 chunk of a RIFF file =
+// payload - 10-byte key-frame header - first partition (19-bit size in the frame tag); -1 if none.
+func vp8TokenBytes(data []byte) int {
+	if len(data) < 20 || string(data[0:4]) != "RIFF" {
+		return -1
+	}
+	out := -1
+	for pos := 12; pos+8 <= len(data); {
+		sz := int(data[pos+4]) | int(data[pos+5])<<8 | int(data[pos+6])<<16 | int(data[pos+7])<<24
+		if string(data[pos:pos+4]) == "VP8 " && pos+8+10 <= len(data) && sz >= 10 {
+			p := data[pos+8:]
+			part0 := (int(p[0]) | int(p[1])<<8 | int(p[2])<<16) >> 5
+			out = sz - 10 - part0
+		}
+		pos += 8 + sz + sz&1
+	}
+	return out
+}
+
+// optDiff names the fields in which b differs from a.
+func optDiff(a, b *webp.EncoderOptions) string {
+	names := []string{"Lossless", "Quality", "Method", "Preset", "UseSharpYUV", "Exact", "TargetSize", "TargetPSNR", "Preprocessing",
+		"SNSStrength", "FilterStrength", "FilterSharpness", "FilterType", "Partitions", "Segments", "Pass", "EmulateJpegSize", "QMin", "QMax",
+		"AlphaCompression", "AlphaFiltering", "AlphaQuality", "ICC", "EXIF", "XMP"}
+	pa, pb := strings.Split(encOpts(a), ","), strings.Split(encOpts(b), ",")
+	var out []string
+	for i := range pa {
+		if i < len(pb) && i < len(names) && pa[i] != pb[i] {
+			out = append(out, fmt.Sprintf("%s=%s (base %s)", names[i], pb[i], pa[i]))
+		}
+	}
+	return join(out, ", ")
 }
 
 // ---------- replays ----------
@@ -1599,16 +2135,49 @@ func replayOptPair(in map[string]any) int {
 	if e1 != nil || e2 != nil || sp == nil {
 		return 2
 	}
-	num := func(k string) int { v, _ := sp[k].(float64); return int(v) }
-	w, h := num("w"), num("h")
-	img := mkOptImg(uint64(num("seed")), uint64(num("k")), w, h, num("cls"), num("acls")).img
-	ra, rb := realEncode(img, oa), realEncode(img, ob)
+	pixels, _ := in["pixels"].(bool) // layout-only pair: the decoded pictures must agree, not the bytes
+	im := optImgFromSpec(sp)
+	if pl, ok := in["prelude"].([]any); ok { // animation encodes that preceded the pair in the suite
+		for _, st := range pl {
+			m, _ := st.(map[string]any)
+			num := func(k string) int { v, _ := m[k].(float64); return int(v) }
+			ll, _ := m["lossless"].(bool)
+			fmt.Printf("prelude: animation encode lossless=%v quality=%d frames=%d: %s\n", ll, num("quality"), num("frames"),
+				optAnimPrelude(uint64(num("seed")), ll, num("quality"), num("frames")))
+		}
+	}
+	ra, rb := realEncode(im.img, oa), realEncode(im.img, ob)
 	fmt.Printf("a: %s %s %s\nb: %s %s %s\n", ra.cls, digest(ra.data), ra.panic, rb.cls, digest(rb.data), rb.panic)
-	if ra.cls == "panic" || rb.cls == "panic" || ra.cls != rb.cls || !bytes.Equal(ra.data, rb.data) {
+	if ra.mod != "" || rb.mod != "" {
+		fmt.Println("Encode modified the caller's options: " + ra.mod + " " + rb.mod)
 		return 1
 	}
-	if ra.cls == "ok" && decodesTo(ra.data, w, h) != "" {
+	if ra.cls == "panic" || rb.cls == "panic" || ra.cls != rb.cls || (!pixels && !bytes.Equal(ra.data, rb.data)) {
 		return 1
+	}
+	if ra.cls != "ok" {
+		return 0
+	}
+	da, bad := decodeCheck(ra.data, im.w, im.h)
+	if bad != "" {
+		fmt.Println("a: " + bad)
+		return 1
+	}
+	E := &optEncoder{rep: NewReport("opts-replay", "quick", 1), psnrMin: map[string]float64{}}
+	if sig, detail := E.pictureCheck(im, oa, da); sig != "" {
+		fmt.Println("a: " + sig + ": " + detail)
+		return 1
+	}
+	if pixels {
+		db, bad := decodeCheck(rb.data, im.w, im.h)
+		if bad != "" {
+			fmt.Println("b: " + bad)
+			return 1
+		}
+		if same, why := optSamePicture(da, db); !same {
+			fmt.Println("decoded pictures differ: " + why)
+			return 1
+		}
 	}
 	return 0
 }
